@@ -85,18 +85,20 @@ def systems(tier):
 # ---- Nilsimsa: every cut at any byte position --------------------------------------------
 
 def pts_nil(tier):
-    return [(target, kind, n) for target in (53, 17) for kind in ('ramp', 'text') for n in range(0, (17 if tier == 'thorough' else 13))]
+    short = range(0, (17 if tier == 'thorough' else 13))
+    longer = (35, 36, 37, 45, 64, 67, 68, 100) if tier == 'thorough' else (35, 36, 45, 67)
+    return [(target, kind, n) for target in (53, 17) for kind in ('ramp', 'text') for n in list(short) + list(longer)]
 
 
 def run_nil(ctx, pt):
     from crysp.nilsimsa import Nilsimsa
     target, kind, n = pt
-    m = ramp(n, 41, 3) if kind == 'ramp' else b'The rain in Spain falls mainly'[:n]
+    m = ramp(n, 41, 3) if kind == 'ramp' else (b'The rain in Spain falls mainly in the plains. ' * 3)[:n]
     whole = ctx.attempt(lambda: Nilsimsa(target)(m))
     for i in range(0, n + 1):
         r = ctx.attempt(lambda: Nilsimsa(target).update(m[:i]).update(m[i:]).digest())
         ctx.eq('C14/nilsimsa/one-cut', r, whole)
-        for j in range(i, n + 1):
+        for j in (range(i, n + 1) if n <= 16 else range(i, n + 1, 7)):
             r = ctx.attempt(lambda: Nilsimsa(target).update(m[:i]).update(m[i:j]).update(m[j:]).digest())
             ctx.eq('C14/nilsimsa/two-cuts', r, whole)
 
@@ -113,7 +115,7 @@ def subchecks():
         hsub('pieces', systems, 8,
              bound='16 hashes (MD4, MD5, SHA-0, SHA-1, SHA-224/256/384/512, SHA-512/224, SHA-512/256, BLAKE-224/256/384/512, BLAKE2s, BLAKE2b) x message of 0..3 (thorough 0..4) blocks + tail in {0,1,blen-lenfield-1,blen-lenfield,blen-1}; events: feed next 0/1/2/3 blocks, close with the rest; BFS over all histories (all compositions, empty pieces at every position), states deduplicated by (chaining value, bit counter, pad flag, position); each piece compared with the one-piece prefix state of a fresh object, each closing digest with the reference digest'),
         Sub('nilsimsa-cuts', pts_nil, run_nil, engine='D',
-            bound='Nilsimsa targets {53,17} x 2 alphabets x every message length 0..12 (thorough 0..16) x every 1-cut and 2-cut position'),
+            bound='Nilsimsa targets {53,17} x 2 alphabets x every message length 0..12 (thorough 0..16) x every 1-cut and 2-cut position; lengths {35,36,45,67} (thorough 8 lengths up to 100, across the digest threshold steps) x every 1-cut and every 7th second cut'),
     ]
 
 
